@@ -43,7 +43,11 @@ func (c *Client) search(numKind imapwire.NumKind, criteria *imap.SearchCriteria,
 	// decode encoded headers and Content-Transfer-Encoding before matching the
 	// criteria.
 	var charset string
-	if !c.Caps().Has(imap.CapIMAP4rev2) && !c.enabled.Has(imap.CapUTF8Accept) && !searchCriteriaIsASCII(criteria) {
+	hasIMAP4rev2 := c.Caps().Has(imap.CapIMAP4rev2)
+	c.mutex.Lock()
+	utf8Accept := c.enabled.Has(imap.CapUTF8Accept)
+	c.mutex.Unlock()
+	if !hasIMAP4rev2 && !utf8Accept && !searchCriteriaIsASCII(criteria) {
 		charset = "UTF-8"
 	}
 
